@@ -65,7 +65,7 @@ func runC18(c *Ctx) {
 				c.check(infos != nil && plan(infos), rule, name+": the index is rebuilt from a restore plan", c.pos(call), "infos = CalcRestorePlan(...)", "the page index is built from something other than the restore planner's result")
 			}
 			for _, cp := range callsTo(fn, nameIs("ls.CalcRestorePlan")) {
-				a := cp.Common().Args
+				a := refArgs(cp)
 				okC := vFieldLoad("VFSFile.client", nil)(a[1]) && vConstInt(0)(a[2])
 				c.check(okC, rule, name+": plan computed on the file's own client for the latest TXID", c.pos(cp), "f.client, txID 0", "plan computed on another client or TXID")
 				if name == "(*ls.VFSFile).SetTargetTime" {
@@ -79,7 +79,7 @@ func runC18(c *Ctx) {
 		if w := c.fn(rule, "(*ls.VFSFile).waitForRestorePlan"); w != nil {
 			ok := false
 			for _, cp := range callsTo(w, nameIs("ls.CalcRestorePlan")) {
-				if vFieldLoad("VFSFile.client", nil)(cp.Common().Args[1]) {
+				if vFieldLoad("VFSFile.client", nil)(refArgs(cp)[1]) {
 					ok = true
 				}
 			}
@@ -110,7 +110,7 @@ func runC18(c *Ctx) {
 			}
 			c.floor(rule, nUpd, 1, "index updates in buildIndexMap")
 			for _, fp := range callsTo(b, nameIs("ls.FetchPageIndex")) {
-				a := fp.Common().Args
+				a := refArgs(fp)
 				// info = infos[i] with i the range index (plan order)
 				okI := false
 				for _, o := range origins(a[2]) {
@@ -137,6 +137,52 @@ func runC18(c *Ctx) {
 				}
 				c.check(ok, rule, fnName(b)+": f.commit = Commit of the last plan element's header", c.pos(st), "hdr.Commit", "commit of unknown provenance")
 			}
+			// "last" means newest: the plan is walked in ascending order (the value left in
+			// `commit` is the one of the last file visited, and later files override earlier pages)
+			nWalk := 0
+			for _, hc := range callsTo(b, nameIs("ls.FetchLTXHeader")) {
+				for _, o := range origins(refArgs(hc)[2]) {
+					u, isU := o.(*ssa.UnOp)
+					if !isU {
+						continue
+					}
+					ia, isIA := u.X.(*ssa.IndexAddr)
+					if !isIA || !vParam("infos")(ia.X) {
+						continue
+					}
+					nWalk++
+					asc, desc := false, false
+					seenI := map[ssa.Value]bool{}
+					var step func(v ssa.Value)
+					step = func(v ssa.Value) {
+						if v == nil || seenI[v] {
+							return
+						}
+						seenI[v] = true
+						switch x := v.(type) {
+						case *ssa.Phi:
+							for _, e := range x.Edges {
+								step(e)
+							}
+						case *ssa.BinOp:
+							if _, isK := x.Y.(*ssa.Const); isK {
+								if _, isPhi := x.X.(*ssa.Phi); isPhi {
+									switch x.Op {
+									case token.ADD:
+										asc = true
+									case token.SUB:
+										desc = true
+									}
+								}
+								step(x.X)
+							}
+						}
+					}
+					step(ia.Index)
+					c.check(asc && !desc, rule, fnName(b)+": the plan is walked oldest to newest, so the commit kept is the newest file's", c.pos(hc), "index recurrence i+1", "the plan is walked newest to oldest while `commit` keeps the value of the last file visited: f.commit ends up as the oldest file's page count and a later shrink is not detected")
+				}
+			}
+			c.floor(rule, nWalk, 1, "FetchLTXHeader(infos[i]) in buildIndexMap")
 		}
 		if r := c.fn(rule, "(*ls.VFSFile).rebuildIndex"); r != nil {
 			for _, st := range storesToField(r, "VFSFile.index") {
@@ -190,7 +236,7 @@ func runC18(c *Ctx) {
 		n := 0
 		for _, fp := range callsToDeep(fn, nameIs("ls.FetchPage")) {
 			n++
-			a := fp.Common().Args
+			a := refArgs(fp)
 			isElem := func(field string) VM {
 				return func(v ssa.Value) bool {
 					for _, o := range origins(v) {
@@ -342,6 +388,41 @@ func runC18(c *Ctx) {
 		// shrink detection
 		es := factEdges(fn, cmpFact(vFieldLoad("Header.Commit", nil), token.LSS, vAny(), ""))
 		c.floor(rule, len(es), 1, "shrink detection (hdr.Commit < lastCommit)")
+	}
+	// wherever the hydration TXID is advanced to a file's MaxTXID, the file has been applied
+	// completely: the store is guarded by ApplyLTX's success, or nothing after it in the same
+	// function can still fail (the TXID is saved on close and trusted on the next open)
+	{
+		const rule = "R6-hydration-txid-after-apply"
+		n := 0
+		for _, g := range c.P.ProdFuncs() {
+			for _, st := range storesToField(g, "Hydrator.txid") {
+				if !vFieldLoad("FileInfo.MaxTXID", nil)(st.Val) {
+					continue
+				}
+				n++
+				okA := false
+				for _, ap := range callsTo(g, nameIs("(*ls.Hydrator).ApplyLTX")) {
+					if gd, k := guardedBy(st, cmpFact(vIs(resultOf(ap, 0)), token.EQL, vNil(), "")); k > 0 && gd {
+						okA = true
+					}
+				}
+				okB := true
+				succ := map[*ssa.Return]bool{}
+				for _, r := range successReturns(g) {
+					succ[r] = true
+				}
+				region := reachable(g, st.Block(), nil)
+				for _, r := range returns(g) {
+					if region[r.Block()] && !succ[r] {
+						okB = false
+					}
+				}
+				c.check(okA || okB, rule, fnName(g)+": the hydration TXID advances to info.MaxTXID only once the file is fully applied", c.pos(st),
+					"guarded by ApplyLTX err == nil, or no failure exit follows the store", "the hydration TXID is advanced before the file's pages are known to be applied: an interrupted apply leaves a TXID that claims the file, and the next open skips it")
+			}
+		}
+		c.floor(rule, n, 1, "stores of FileInfo.MaxTXID to Hydrator.txid")
 	}
 	if fn := c.fn("R6-contiguous-polling", "(*ls.Hydrator).CatchUp"); fn != nil {
 		const rule = "R6-catch-up-inclusive"
